@@ -78,10 +78,17 @@ func VH_C07_batch() {
 			m.fbCalls[k]++
 			vAssert(m.okAt[k] == 0 && m.attempts[k] == N, "fallback-only-after-the-items-budget-is-exhausted")
 			vAssert(err == m.lastErr[k], "fallback-receives-the-items-last-error")
-			m.fbMode[k] = vChoice("fbMode", 3)
+			m.fbMode[k] = vChoice("fbMode", 4)
 			if m.fbMode[k] == 1 {
 				m.fbErr[k] = &vError{id: 900 + k}
 				ferr = m.fbErr[k]
+			} else if m.fbMode[k] == 3 {
+				// giving up with an error AND a Result-typed value next to it (e.g. the item it was
+				// handed): the error is the outcome
+				vCover("fb-err-with-a-result-value")
+				m.fbErr[k] = &vError{id: 900 + k}
+				ferr = m.fbErr[k]
+				out = r
 			} else if m.fbMode[k] == 2 {
 				// swallowing the failure with a nil value is a recovery too (as for a single node)
 				vCover("fb-recovers-with-nil")
@@ -112,7 +119,7 @@ func VH_C07_batch() {
 		} else {
 			vAssert(m.attempts[i] == N, "failing-item-gets-exactly-N-attempts")
 			vAssert(m.fbCalls[i] == 1, "fallback-exactly-once-per-exhausted-item")
-			if m.fbMode[i] != 1 {
+			if m.fbMode[i] != 1 && m.fbMode[i] != 3 {
 				vCover("fb-ok")
 				vAssert(!r.IsError() && vSame(r.Value(), m.fbVal[i]), "slot-holds-the-fallbacks-value")
 			} else {
